@@ -233,6 +233,9 @@ impl<T> Drop for Drain<'_, T> {
                 non_null::truncate(self.slice, old_len + self.tail_len);
             }
 
+            // The remaining elements have just been dropped by `truncate`, `iter` must not drop them again.
+            mem::forget(iter);
+
             return;
         }
 
